@@ -123,6 +123,18 @@ Theorem C14_bounds_hold_after_value_assignment :
 Proof. exact @value_setter_establishes_bounds. Qed.
 Print Assumptions C14_bounds_hold_after_value_assignment.
 
+(* assigning a parameter its own current value is the identity on reachable in-bounds states
+   (the setters' normalisations are idempotent) *)
+Theorem C14_self_assignment_identity :
+  forall (T : Type) (O : NumOps T) (c : Cls) (s : State), WF O s -> InB O c s ->
+    step O c s (SetVarRaw (var_raw s)) = Ok s /\ step O c s (SetNugget (nugget s)) = Ok s /\
+    step O c s (SetLenScale [len_scale s]) = Ok s /\ step O c s (SetAnis (anis s)) = Ok s /\
+    step O c s (SetAngles (angles s)) = Ok s /\ step O c s (SetDim (dim s)) = Ok s /\
+    step O c s (SetRescale (Some (rescale s))) = Ok s /\
+    (forall i, i < length (opts s) -> step O c s (SetOpt i (nth i (opts s) (n0 O))) = Ok s).
+Proof. exact @self_assignment_identity. Qed.
+Print Assumptions C14_self_assignment_identity.
+
 (* 7. derived quantities *)
 Theorem C14_derived :
   forall (T : Type) (O : NumOps T) (s : State), WF O s ->
